@@ -139,9 +139,12 @@ class FrozenDict(collections.abc.Mapping):
 
     def __hash__(self):
         if self._hash is None:
-            self._hash = 0
+            # published in one store: another thread hashing the same
+            # mapping at this moment must not see a partial value
+            result = 0
             for pair in self.items():
-                self._hash ^= hash(pair)
+                result ^= hash(pair)
+            self._hash = result
         return self._hash
 
     def __repr__(self):
